@@ -20,7 +20,7 @@ RULE = ("exhaustive enumeration of {while, for} x nesting paths (length 0..2 qui
         "plus top-level `return` in a session (read in the next request); then random C05-style programs with a read of "
         "every block-local name appended after each loop; key = the enumeration tuple")
 ASSUME = ["reference scoping = conventional lexical block scoping (DESIGN Appendix C)"]
-BATCH = 20
+BATCH = 10
 FLOOR = {"quick": 500, "thorough": 2000}
 BUDGET = {"quick": 40, "thorough": 600}
 E = G.E
